@@ -1,5 +1,6 @@
 import TarpcModel.Driver.Show
 import TarpcModel.Monitors.Client
+import TarpcModel.Client.Settle
 /- Family `cli`: one client endpoint (dispatch + calls) over a SimTransport; the peer is the script. -/
 namespace TarpcModel.Driver
 open TarpcModel TarpcModel.Client
@@ -40,6 +41,12 @@ def parseCOp (toks : List String) : Option COp :=
   | _ => none
 
 def cliStep (c : Sys) (toks : List String) : Sys × List String :=
+  if toks == ["settle"] then
+    let (c', stuck) := settle { c with s := { c.s with obs := [] } }
+    let lines := c'.s.obs.reverse.map showObs
+    let verdict := if stuck.isEmpty then "settled ok" else "settled stuck " ++ " ".intercalate (stuck.map fun k => s!"c{k}")
+    ({ c' with s := { c'.s with obs := [] } }, lines ++ [verdict])
+  else
   match parseCOp toks with
   | some op => let (c', os) := stepOp c op; (c', os.map showObs)
   | none => (c, ["bad-op"])
@@ -55,6 +62,7 @@ structure CliMon where
   c14 : Mon C14St := { st := {} }
   c18 : Mon Unit := { st := () }
   maxInFlight : Nat := 1
+  c02 : Option String := none
   garbled : Option String := none
 
 def CliMon.feed (m : CliMon) (e : CEv) : CliMon :=
@@ -65,7 +73,7 @@ def CliMon.feed (m : CliMon) (e : CEv) : CliMon :=
 
 def CliMon.verdict (m : CliMon) : Option String :=
   let fs := [("C01", m.c01.bad), ("C03", m.c03.bad), ("C05", m.c05.bad), ("C09", m.c09.bad), ("C10", m.c10.bad),
-             ("C11", m.c11.bad), ("C14", m.c14.bad), ("C18", m.c18.bad), ("PARSE", m.garbled)]
+             ("C11", m.c11.bad), ("C14", m.c14.bad), ("C18", m.c18.bad), ("C02", m.c02), ("PARSE", m.garbled)]
   let bad := fs.filterMap fun (p, b) => b.map fun w => s!"[{p}] {w}"
   if bad.isEmpty then none else some (" ;; ".intercalate bad)
 
@@ -76,10 +84,16 @@ def cli : Family where
   step := cliStep
   monInit ps := { maxInFlight := param ps "max" 1 }
   monStep m toks :=
+    match toks with
+    | ["settled", "ok"] => m
+    | "settled" :: "stuck" :: cs =>
+        { m with c02 := m.c02.orElse fun _ => some ("calls still pending with nothing left to wake the system: " ++ " ".intercalate cs) }
+    | _ =>
     match parseObs toks with
     | some o => m.feed (.obs o)
     | none => { m with garbled := m.garbled.orElse fun _ => some ("unparsable obs: " ++ " ".intercalate toks) }
   monOp m toks :=
+    if toks == ["settle"] then m else
     match parseCOp toks with
     | some o => m.feed (.op o)
     | none => { m with garbled := m.garbled.orElse fun _ => some ("unparsable op: " ++ " ".intercalate toks) }
